@@ -25,9 +25,10 @@ Graphs == <<
    parent |-> [n \in {"n1", "n2", "n3"} |-> IF n = "n2" THEN "n1" ELSE "none"],
    embedPred |-> [n \in {"n1", "n2", "n3"} |-> "p"]],
   [name |-> "types", nodes |-> {"n1", "n2"}, lits |-> {"l1", "l2"},
+   \* a predicate ("data") and a class ("security") whose local names are also names of built-in prefixes
    edges |-> {<<"n1", "p", "l1">>, <<"n1", "q", "n2">>, <<"n2", "p", "l2">>, <<"n2", "q", "l1">>, <<"n2", "r", "l1">>,
-              <<"n2", "r", "l2">>},
-   types |-> [n \in {"n1", "n2"} |-> IF n = "n1" THEN {"T", "C1", "C2"} ELSE {"T"}],
+              <<"n2", "r", "l2">>, <<"n1", "data", "l2">>, <<"n2", "core", "n1">>},
+   types |-> [n \in {"n1", "n2"} |-> IF n = "n1" THEN {"T", "C1", "security"} ELSE {"T", "doc"}],
    parent |-> [n \in {"n1", "n2"} |-> IF n = "n2" THEN "n1" ELSE "none"],
    embedPred |-> [n \in {"n1", "n2"} |-> "q"]] >>
 
